@@ -247,7 +247,8 @@ class Report:
 
 
 def write_replay(prop_id, case, deviation, seed, tier):
-    d = os.path.join(env.VERIF, "replays", prop_id)
+    # sensitivity runs (VERIF_REPO set) keep their replay files apart from those of the real tree
+    d = os.path.join(env.VERIF, "replays", prop_id) if "VERIF_REPO" not in os.environ else os.path.join(env.WORK_ROOT, "sens_replays", prop_id)
     os.makedirs(d, exist_ok=True)
     path = os.path.join(d, hexdigest(case) + ".json")
     rel = os.path.relpath(path, env.VERIF)
